@@ -5,6 +5,7 @@ package harness
 import (
 	"fmt"
 	"math"
+	"strings"
 	"testing"
 
 	"github.com/tidwall/geojson"
@@ -185,7 +186,7 @@ func (o *c09Obj) alternatives(obj geojson.Object) []struct {
 		name string
 		obj  geojson.Object
 	}
-	out := []alt{{"Feature{x}", geojson.NewFeature(obj, "")}}
+	out := []alt{{"Feature{x}", geojson.NewFeature(obj, "")}, {"Feature{Feature{x}}", geojson.NewFeature(geojson.NewFeature(obj, ""), "")}}
 	switch x := obj.(type) {
 	case *geojson.Rect:
 		r := x.Base()
@@ -301,7 +302,7 @@ func c09Check(c c09Case) fw.Outcome {
 			} {
 				if pr.orig != pr.got {
 					// a Feature is one part where its collection has many: the two readings of "part" (C10) may differ
-					if alt.name == "Feature{x}" && isCollKind(side.o.Kind) {
+					if strings.HasPrefix(alt.name, "Feature{") && isCollKind(side.o.Kind) {
 						continue
 					}
 					return fail("%s %s = %v, with %s in its place %v", side.name, pr.name, pr.orig, alt.name, pr.got)
